@@ -9,11 +9,11 @@ CLAIMED = True
 CONFIG = {'assumptions': [
     'sections are handed to DWARFInfo as BytesIO streams with size = len(bytes)',
     'names are valid UTF-8; the library decodes them, the comparison re-encodes them',
-    'section sizes < 2^53 (the library aligns the first tuple with float arithmetic)',
     'zero-length address tuples count as conflicting with a range they start in (Spec ranges_conflict)',
     'offset-exact unit lookups are asked only at offsets where a unit starts (get_CU_at is documented as unvalidated)',
     'DIE construction (die.py) is a parameter of the model; the harness uses attribute-less abbreviations so a DIE is its ULEB128 code']}
-LEVEL = {'text': 'Machine-checked theorems over unbounded inputs: .debug_aranges round trip (any number of sets, address size 4/8, '
+LEVEL = {'text': 'Machine-checked theorems over unbounded inputs: .debug_aranges round trip (any number of sets, address size 4/8 in any '
+                 'mixture with every set starting wherever the previous one ends - header padding counted from the set start, '
                  'free padding/trailing bytes, both byte orders) and cu_offset_at_addr = Some o iff a tuple with unit offset o '
                  'contains the address, for pairwise non-conflicting ranges in any order (stable sort, real halving bisect, Python '
                  'index -1); name tables (dict = first-occurrence order, last binding wins, distinct names = encoded list, headers in '
@@ -25,7 +25,9 @@ LEVEL = {'text': 'Machine-checked theorems over unbounded inputs: .debug_aranges
                  'machinery, bisect module (modelled as the halving loop), list.sort (modelled as insertion sort, proved to be THE stable '
                  'sorted rearrangement), dict ordering. DIE parsing is abstracted (C04).'}
 
-RULE = ('cases: (aranges) Coq-encoded tables of 0..6 sets, address size 4/8 mixed, globally pairwise-disjoint ranges dealt to sets in '
+RULE = ('cases: (aranges) Coq-encoded tables of 0..6 sets, address size 4/8 mixed, three layouts: packed (each set starts where the '
+        'previous one ends, so 8-byte sets start at non-multiples of 16 after 4-byte sets), ragged (1..7 garbage bytes inside unit_length '
+        'after the terminator: odd set starts), aligned (what producers emit); globally pairwise-disjoint ranges dealt to sets in '
         'random order with adjacent pairs, gaps, empty sets, garbage padding/trailing bytes; queried at first byte-1, first byte, middle, '
         'last byte, one past, for EVERY tuple, plus below/above/gap addresses; (names) 0..5 sets of pubnames or pubtypes with ASCII, '
         'non-ASCII UTF-8, empty and duplicate names, present and absent queries through [], get, iter, items, len, get_cu_headers; '
@@ -35,6 +37,7 @@ RULE = ('cases: (aranges) Coq-encoded tables of 0..6 sets, address size 4/8 mixe
         'tuple/name/two units, or an empty-table / error case')
 
 K_EMPTY = 'cu_offset_at_addr-empty-table-IndexError'
+K_PAD = 'aranges-header-padding-counted-from-section-start'
 
 
 # --------------------------------------------------------------------------------------------- generators
@@ -60,29 +63,64 @@ def _gen_ranges(rng, n, bits):
     return [r for r in out if r[0] + r[1] < 2 ** bits]
 
 
-def _gen_aranges_sets(rng, nsets, aligned=True, allow_big=True):
+LAYOUTS = ['packed', 'packed', 'ragged', 'aligned']
+
+
+def _gen_aranges_sets(rng, nsets, layout=None, allow_big=True):
+    """layout: 'packed'  no byte after the terminator: every set starts where the previous one ends
+               'ragged'  1..7 garbage bytes after some terminators (still inside unit_length): odd set starts
+               'aligned' trailing bytes chosen so that every set starts at a multiple of its tuple size (producers)"""
+    layout = layout or rng.choice(LAYOUTS)
     asz = [rng.choice([4, 8]) for _ in range(nsets)]
     bits = 32 if 4 in asz else rng.choice([32, 48, 64]) if allow_big else 32
     counts = [rng.choice([0, 0, 1, 1, 2, 3, 5]) for _ in range(nsets)]
     ranges = _gen_ranges(rng, sum(counts), bits)
     rng.shuffle(ranges)                      # unsorted, dealt to sets in random order
     sets = []
-    off = 0
     pos = 0
     for i in range(nsets):
         tuples = ranges[pos:pos + counts[i]]
         pos += counts[i]
         tuples = [list(t) for t in tuples if not (t[0] == 0 and t[1] == 0)]
-        ts = 2 * asz[i]
-        body_wo_trail = 8 + 4 + ts * (len(tuples) + 1)
-        end = off + 4 + body_wo_trail
-        nts = 2 * asz[i + 1] if i + 1 < nsets else rng.choice([1, 8, 16])
-        fix = (-end) % nts if aligned else rng.choice([1, 2, 3, 5])
-        trail = fix + (nts * rng.choice([0, 0, 0, 1, 2]) if aligned else 0)
         sets.append([rng.choice([2, 2, 3, 4, 5, rng.randrange(65536)]), rng.randrange(2 ** 32) if rng.random() < 0.3 else rng.randrange(0x10000),
-                     asz[i], _garbage(rng, 4), tuples, _garbage(rng, trail)])
+                     asz[i], _garbage(rng, 4), tuples, b''])
+    return _layout(sets, rng, layout)
+
+
+def _set_len(st):
+    """bytes of an encoded set without its trailing bytes: unit_length field, 8 header bytes, 4 padding, tuples, terminator"""
+    return 4 + 8 + 4 + 2 * st[2] * (len(st[4]) + 1)
+
+
+def _layout(sets, rng, layout):
+    """(re)compute the trailing bytes of every set for the given layout"""
+    off = 0
+    for i, st in enumerate(sets):
+        end = off + _set_len(st)
+        if layout == 'aligned':
+            nts = 2 * sets[i + 1][2] if i + 1 < len(sets) else rng.choice([1, 8, 16])
+            trail = (-end) % nts + nts * rng.choice([0, 0, 0, 1, 2])
+        elif layout == 'ragged':
+            trail = rng.choice([0, 1, 2, 3, 4, 5, 7])
+        else:
+            trail = 0
+        st[5] = _garbage(rng, trail)
         off = end + trail
     return sets
+
+
+def _off_grid(sets):
+    """starts of the sets that do not begin at a multiple of their own tuple size (where padding counted from the
+    section start and padding counted from the set start differ)"""
+    return [o for o, st in zip(_set_starts(sets), sets) if st[2] in (4, 8) and o % (2 * st[2])]
+
+
+def _set_starts(sets):
+    out, off = [], 0
+    for st in sets:
+        out.append(off)
+        off += _set_len(st) + len(st[5])
+    return out
 
 
 def _addresses_for(sets, rng):
@@ -191,7 +229,14 @@ def corpus(ctx):
     return [('aranges_lookup', [True, [empty_set], [0, 1, 0x1000]]),
             ('aranges_lookup', [True, [], [0]]),
             ('aranges_lookup', [False, [empty_set, [2, 0x40, 4, b'\x01\x02\x03\x04', [], b'']], [5]]),
-            ('aranges_lookup', [True, [[2, 0x10, 8, b'\0\0\0\0', [[0x1000, 0x10]], b'']], [0xfff, 0x1000, 0x100f, 0x1010]])]
+            ('aranges_lookup', [True, [[2, 0x10, 8, b'\0\0\0\0', [[0x1000, 0x10]], b'']], [0xfff, 0x1000, 0x100f, 0x1010]]),
+            # fix efe8bbe: an 8-byte-address set starting at offset 24 (padding counted from the set start)
+            ('aranges_entries', [True, [[2, 0, 4, b'\0\0\0\0', [], b''], [2, 0x40, 8, b'\0\0\0\0', [[0x1000, 0x10]], b'']]]),
+            ('aranges_lookup', [True, [[2, 0, 4, b'\0\0\0\0', [], b''], [2, 0x40, 8, b'\0\0\0\0', [[0x1000, 0x10]], b'']],
+                                [0xfff, 0x1000, 0x100f, 0x1010]]),
+            ('aranges_lookup', [False, [[2, 0, 8, b'\x01\x02\x03\x04', [[0x2000, 8]], b'\x07'],
+                                        [3, 0x40, 4, b'\x05\x06\x07\x08', [[0x10, 4], [0x14, 4]], b''],
+                                        [2, 0x80, 8, b'\0\0\0\0', [[0x3000, 0x100]], b'']], [0xf, 0x10, 0x17, 0x18, 0x2007, 0x2008, 0x3000, 0x30ff, 0x3100]])]
 
 
 def gen(ctx):
@@ -204,26 +249,38 @@ def gen(ctx):
         sets = _gen_aranges_sets(rng, rng.choice([0, 1, 1, 2, 3, 4, 6]))
         cases.append(('aranges_entries', [le, sets]))
         cases.append(('aranges_lookup', [le, sets, _addresses_for(sets, rng)]))
+    for i in range(40 * T):          # the alternation that moves set starts off the tuple grid: 4-byte sets with an even
+        le = rng.random() < 0.7      # number of tuples (24, 40, ... bytes) in front of 8-byte sets, nothing in between
+        sets = _gen_aranges_sets(rng, rng.choice([2, 3, 4, 5]), layout='packed')
+        for j, st in enumerate(sets):
+            st[2] = 4 if j % 2 == 0 else 8
+            if st[2] == 4:
+                st[4] = [t for t in st[4] if t[0] + t[1] < 2 ** 32]
+                if len(st[4]) % 2:
+                    st[4] = st[4][:-1]
+        cases.append(('aranges_entries', [le, sets]))
+        cases.append(('aranges_lookup', [le, sets, _addresses_for(sets, rng)]))
     for i in range(20 * T):          # every set empty
         le = rng.random() < 0.5
         sets = _gen_aranges_sets(rng, rng.choice([1, 2, 3]))
         for st in sets:
             st[4] = []
-        sets = _realign(sets, rng)
+        sets = _layout(sets, rng, rng.choice(LAYOUTS))
         cases.append(('aranges_lookup', [le, sets, _addresses_for(sets, rng)]))
-    for i in range(25 * T):          # out of domain: misaligned sets, conflicting ranges, zero-length tuples
+    for i in range(25 * T):          # out of domain: conflicting ranges, zero-length tuples, wrong padding length
         le = rng.random() < 0.5
-        k = rng.choice(['misaligned', 'overlap', 'zerolen'])
-        if k == 'misaligned':
-            sets = _gen_aranges_sets(rng, rng.choice([2, 3]), aligned=False)
+        k = rng.choice(['overlap', 'zerolen', 'padlen'])
+        sets = _gen_aranges_sets(rng, rng.choice([1, 2]), allow_big=False)
+        if k == 'padlen':
+            if sets:
+                rng.choice(sets)[3] = _garbage(rng, rng.choice([0, 1, 3, 5, 8, 12]))
         else:
-            sets = _gen_aranges_sets(rng, rng.choice([1, 2]), allow_big=False)
             tl = [t for st in sets for t in st[4]]
             if tl:
                 b, ln = rng.choice(tl)
                 extra = [b + ln // 2, max(1, ln)] if k == 'overlap' else [b if b else 1, 0]
                 rng.choice(sets)[4].append(extra)
-                sets = _realign(sets, rng)
+                sets = _layout(sets, rng, rng.choice(LAYOUTS))
         cases.append(('aranges_lookup', [le, sets, _addresses_for(sets, rng)]))
     for i in range(6 * T):           # truncations (error behaviour is outside the property: drift only)
         sets = _gen_aranges_sets(rng, rng.choice([1, 2]))
@@ -268,18 +325,6 @@ def gen(ctx):
         rng.shuffle(ops)
         cases.append(('units_history', [True, units, ops]))
     return cases
-
-
-def _realign(sets, rng):
-    """recompute the trailing bytes so that every set starts at a multiple of its tuple size"""
-    off = 0
-    for i, st in enumerate(sets):
-        ts = 2 * st[2]
-        end = off + 4 + 8 + 4 + ts * (len(st[4]) + 1)
-        nts = 2 * sets[i + 1][2] if i + 1 < len(sets) else 1
-        st[5] = _garbage(rng, (-end) % nts)
-        off = end + len(st[5])
-    return sets
 
 
 # --------------------------------------------------------------------------------------------- implementation side
@@ -425,13 +470,20 @@ def evaluate(ctx, cases):
             impl, _ = _impl_aranges(a[0], data, [], addr_size)
             spec = ['ok', spec]
             ntup = sum(len(st[4]) for st in a[1])
+            off_grid = _off_grid(a[1])
             ctx.bump('sets', len(a[1]))
             ctx.bump('tuples', ntup if ntup < 8 else '8+')
-            ctx.record(kind, a, impl=impl, spec=spec, model=model, in_domain=w['wf'], nontrivial=ntup > 0)
+            ctx.bump('address_sizes', '+'.join(str(z) for z in sorted({st[2] for st in a[1]})) or 'none')
+            ctx.bump('set_starts', 'all multiples of the tuple size' if not off_grid else
+                     'off the tuple grid, odd' if any(o % 2 for o in off_grid) else 'off the tuple grid')
+            ctx.record(kind, a, impl=impl, spec=spec, model=model, in_domain=w['wf'], nontrivial=ntup > 0,
+                       key=K_PAD if off_grid else None)
         elif kind == 'aranges_lookup':
             _, impl = _impl_aranges(a[0], data, a[2], addr_size)
             ntup = sum(len(st[4]) for st in a[1])
-            if ntup == 0:
+            if _off_grid(a[1]):
+                key = K_PAD
+            elif ntup == 0:
                 key = K_EMPTY
             ctx.bump('lookup_tables', 'empty' if ntup == 0 else 'nonempty')
             ctx.bump('addresses', len(a[2]) if len(a[2]) < 40 else '40+')
